@@ -490,7 +490,7 @@ func subC12P2P(kind string) string {
 
 // ---------------------------------------------------------------- the share collector and the recovery stage
 
-var c12QueryKinds = []string{"sig-all-nil", "sig-empty-request-id", "sig-nil-content", "sig-nil-signature", "sig-one-byte", "sig-long-request-id", "sig-huge-content", "valid-share-mislabelled-then-short-signature"}
+var c12QueryKinds = []string{"sig-all-nil", "sig-empty-request-id", "sig-nil-content", "sig-nil-signature", "sig-one-byte", "sig-long-request-id", "sig-huge-content", "valid-share-mislabelled-then-short-signature", "shares-before-registration"}
 
 func subC12Query(kind string) string {
 	rng := hx.NewRng(11)
@@ -498,6 +498,11 @@ func subC12Query(kind string) string {
 	lastRand := big.NewInt(5) // submitter = index 2
 	byz := map[int]byzKind{}
 	var late map[int]time.Duration
+	if kind == "shares-before-registration" {
+		// the submitter handles the event after both peers' shares have arrived: more shares are
+		// waiting for the request than its recovery will take
+		late = map[int]time.Duration{2: 300 * time.Millisecond}
+	}
 	if kind == "valid-share-mislabelled-then-short-signature" {
 		// member 0 misbehaves; member 1's own share arrives later
 		byz[0] = byzWrongContentThenShort
@@ -525,8 +530,11 @@ func subC12Query(kind string) string {
 	if o.panicked {
 		return "panicked"
 	}
-	if len(o.reports[2]) == 1 {
+	if len(o.reports[2]) == 1 && o.second != 0 {
 		return "served"
+	}
+	if len(o.reports[2]) == 1 {
+		return "next-request-not-served"
 	}
 	return fmt.Sprintf("not-served:%d", len(o.reports[2]))
 }
